@@ -10,6 +10,7 @@
 
     Trial decryption and nullifier derivation are Section variables. *)
 From V.Lib Require Import Base.
+From V.Gen Require Import C05Consts.
 Local Open Scope N_scope.
 
 Inductive pool := Sapling | Orchard | Ironwood.
@@ -19,14 +20,16 @@ Definition pool_eqb (a b : pool) : bool :=
 Record fld := F { flen : N; fok : bool; fid : N }.
 (** generator ground truth attached to an output (who it was encrypted to) — only read by the
     instantiation of [dec] used for case evaluation, never by the model itself *)
-Record truth := T { t_acct : N; t_scope : N; t_value : N; t_nfpos : N; t_nf : N }.
+(** [t_lead]: lead byte of the Sapling note plaintext the generator encrypted (1 = pre-ZIP 212,
+    2 = ZIP 212); 0 for Orchard-shaped notes *)
+Record truth := T { t_acct : N; t_scope : N; t_value : N; t_nfpos : N; t_nf : N; t_lead : N }.
 Record cout := O { o_nf : fld; o_cmx : fld; o_epk : fld; o_ct : N; o_truth : option truth }.
 Record ctx := Tx { x_index : N; x_txid : fld; x_spends : list fld;
                    x_outs : list cout; x_acts : list cout; x_iw : list cout }.
 Record cblock := Blk { b_height : N; b_hash : fld; b_prev : fld; b_time : N;
                        b_hdr : option (N * N); b_vtx : list ctx; b_meta : option (N * N * N) }.
 (** activation heights of Sapling, NU5 (Orchard), NU6.3 (Ironwood) *)
-Record params := Cfg { a_sapling : option N; a_nu5 : option N; a_nu63 : option N }.
+Record params := Cfg { a_sapling : option N; a_nu5 : option N; a_nu63 : option N; a_canopy : option N }.
 Record pmeta := Pm { p_height : N; p_hash : N; p_s : option N; p_o : option N; p_i : option N }.
 Record key := K { k_acct : N; k_scope : N }.
 Record nfset := Nfs { n_s : list (N * N); n_o : list (N * N); n_i : list (N * N) }.
@@ -312,10 +315,29 @@ Fixpoint scan_batch (c : params) (prior : option pmeta) (keys : list key) (nfs :
 
 End WithOracles.
 
+(** ---- ZIP 212 enforcement (zcash_primitives::...::sapling::zip212_enforcement) ------------- *)
+(** Sapling trial decryption is done under the policy of the height the block claims: before
+    Canopy only plaintexts with lead byte 0x01 are accepted, from the end of the grace period
+    (Canopy + ZIP212_GRACE_PERIOD, saturating) only 0x02, in between both. *)
+Inductive zip212 := ZOff | ZGrace | ZOn.
+Definition GRACE : N := Z.to_N ZIP212_GRACE_PERIOD.
+Definition zip212_enforcement (c : params) (h : N) : zip212 :=
+  match a_canopy c with
+  | None => ZOff
+  | Some a => if h <? a then ZOff
+              else if h <? N.min (a + GRACE) (U32 - 1) then ZGrace else ZOn
+  end.
+Definition lead_accepted (e : zip212) (lead : N) : bool :=
+  match e with ZOff => lead =? 1 | ZGrace => (lead =? 1) || (lead =? 2) | ZOn => lead =? 2 end.
+
 (** ---- instantiation of the oracles from the generator's ground truth ---------------------- *)
-Definition dec_truth (_ : pool) (k : key) (o : cout) : option note :=
+(** [dec_truth c h]: trial decryption of an output of a block claiming height [h]: the key must
+    be the one the generator encrypted to and, for Sapling, the plaintext version must be
+    accepted by the ZIP 212 policy of THAT block *)
+Definition dec_truth (c : params) (h : N) (p : pool) (k : key) (o : cout) : option note :=
   match o_truth o with
   | Some t => if (t_acct t =? k_acct k) && (t_scope t =? k_scope k)
+                 && match p with Sapling => lead_accepted (zip212_enforcement c h) (t_lead t) | _ => true end
               then Some (Note (t_value t) (t_nfpos t) (t_nf t)) else None
   | None => None
   end.
@@ -327,4 +349,5 @@ Definition nf_truth (p : pool) (_ : key) (n : note) (pos : N) : option N :=
   | _ => Some (nt_nf n) (* Orchard-shaped nullifiers do not depend on the position *)
   end.
 
-Definition scan_block_truth := scan_block dec_truth nf_truth.
+Definition scan_block_truth (c : params) (prior : option pmeta) (keys : list key) (nfs : nfset) (b : cblock) :=
+  scan_block (dec_truth c (b_height b)) nf_truth c prior keys nfs b.
